@@ -440,6 +440,28 @@ func (e *tabEnv) eval(pk *packages.Package, x ast.Expr) interface{} {
 			}
 			return m
 		}
+		if _, ok := info.Types[y].Type.Underlying().(*types.Slice); ok {
+			// a list of tables (or of code points) written as a literal
+			var lst tvList
+			ints := true
+			var xs []int64
+			for _, el := range y.Elts {
+				if _, isKV := el.(*ast.KeyValueExpr); isKV {
+					return e.unk("keyed slice literal", el, pk)
+				}
+				if v, ok := e.constInt(pk, el); ok {
+					xs = append(xs, v)
+					lst = append(lst, v)
+					continue
+				}
+				ints = false
+				lst = append(lst, e.eval(pk, el))
+			}
+			if ints && len(xs) > 0 {
+				return xs
+			}
+			return lst
+		}
 		if st, ok := info.Types[y].Type.Underlying().(*types.Struct); ok && namedOf(info.Types[y].Type) != "PercentEncodeSet" {
 			sv := &tvStruct{fields: make([]interface{}, st.NumFields())}
 			for i, el := range y.Elts {
@@ -807,7 +829,20 @@ func BuildTables(c *Ctx) *tabEnv {
 			for _, f := range pk.Syntax {
 				for _, d := range f.Decls {
 					if fd, ok := d.(*ast.FuncDecl); ok && fd.Recv == nil && fd.Name.Name == "init" {
+						mark := len(e.unknown)
 						e.exec(pk, fd.Body)
+						if len(e.unknown) > mark {
+							// a statement of init() the evaluator could not follow may have changed any table of the
+							// package: none of their values can be trusted
+							why := "init() contains a statement the table evaluator cannot follow: " + strings.Join(e.unknown[mark:], "; ")
+							for o := range e.globals {
+								if o.Pkg() == pk.Types {
+									if _, isMap := e.globals[o].(tvMap); !isMap {
+										e.globals[o] = tvUnknown{why}
+									}
+								}
+							}
+						}
 					}
 				}
 			}
